@@ -302,7 +302,7 @@ def run(ctx):
     # planned, every run: single COORDINATES of observed points marked missing (a mask that is not uniform over the coordinate axis — user code masking a depth, a
     # representation masking an undefined angle): the statistics of the normalisers must leave such frames out like any other missing slot
     for be in ("tf", "tf", "torch", "numpy", "tf", "numpy"):
-        for opk in ("normalize", "normalize_distribution", "zero_filled", "get_points", "select_frames", "copy"):
+        for opk in ("normalize", "normalize_distribution", "zero_filled", "get_points", "select_frames", "copy", "matmul"):
             case = gen_case(rng)
             tries = 0
             while (case["body"]["frames"] < 3 or case["body"]["points"] < 2) and tries < 80:
@@ -330,6 +330,13 @@ def run(ctx):
                 op = {"k": "select_frames", "ixs": [f0, F - 1, f0]}
             elif opk == "copy":
                 op = {"k": "copy"}
+            elif opk == "matmul":
+                if be == "tf" and P == 1:
+                    continue                               # tf.matmul on (F > 1, 1, N, D) aborts the interpreter in this sandbox
+                # a WHOLE observed point hidden by a mask of its own (a linear map mixes the coordinates of a point, so the slot is the point)
+                f_, p_, n_, _d = case["extra_mask"][0]
+                case["extra_mask"] = [[f_, p_, n_, d] for d in range(D)]
+                op = {"k": "matmul", "m": [[float(rng.randint(-2, 2)) for _ in range(D)] for _ in range(D)]}
             elif opk == "normalize":
                 if be == "torch":
                     continue                               # torch poses offer no normalize
